@@ -723,7 +723,48 @@ def oracle_c01_badsig(obs, rep, tier):
     return lvl, cov, asm
 
 
+def oracle_c02_badsig(obs, rep, tier):
+    """C02 on part B: a cell whose two source values are BOTH Copy or Clone + clone-if-necessary is rule-abiding whatever the
+    edges are (by value / by reference, crosswise stalemates included, with or without direct uses by the handler): every
+    ownership demand can be met by a clone or a copy. Such a member must be accepted without an error diagnostic."""
+    import oracles as O
+    fo = obs.get(FAMILY) or {}
+    o = fo.get("b") or {}
+    n = n_in = 0
+    hist = collections.Counter()
+    samples = []
+    units = [(F.single_spec(FAMILY, i, sh), sh) for i, sh in enumerate(o.get("shapes", []))]
+    gens = o.get("singles_gen") or {}
+    if "b" not in fo and "specs" in fo:  # --replay of one spec (oracles.replay layout)
+        units = [(sp, sp["bp"]["ops"]) for sp in fo["specs"] if "badsig" not in sp]
+        gens = fo.get("gen") or {}
+    for spec, sh in units:
+        gen = gens.get(spec["id"])
+        if gen is None or gen.get("timed_out") or gen.get("panic"):
+            continue  # C09's subject
+        n += 1
+        srcs = [op for op in sh if op["k"] == "ctor" and CTOR_RE.match(op["c"]) and CTOR_RE.match(op["c"]).group(3) == "0"]
+        ok = bool(srcs) and all(CTOR_RE.match(op["c"]).group(2) == "Y" or (CTOR_RE.match(op["c"]).group(2) == "K" and op.get("cl") == "clone_if_necessary")
+                                for op in srcs)
+        hist[f"{'in-class' if ok else 'outside'}:{'accepted' if gen['exit'] == 0 else 'rejected'}"] += 1
+        if not ok:
+            continue
+        n_in += 1
+        if gen["exit"] != 0 or gen["n_error"] > 0:
+            title = O.first_error_title(gen["stderr"])
+            rep.violation(f"{FAMILY}:rejected-all-values-clonable:{shape_class(spec)}",
+                          f"every source value of {spec['id']} [{O.compact_ops(sh)}] is Copy or clone-if-necessary, but pavexc rejected it: {title}",
+                          {"oracle": "C02", "spec": spec, "stderr": O.ANSI.sub("", gen["stderr"])[-2500:]})
+        elif len(samples) < 2:
+            samples.append({"spec": O.sample_spec(spec)})
+    cov = {"evaluations": n_in, "distinct_nontrivial": n_in, "exhaustive": True, "samples": samples, "outcome_histogram": dict(hist),
+           "rule": "BADSIG part B (ownership cells A,B -> C,D, every edge by value / by reference, crosswise stalemates, direct uses): members "
+                   "whose source values are all Copy or Clone + clone-if-necessary must be accepted"}
+    return "exploration", cov, []
+
+
 PROPERTIES = {
+    "C02": (lambda tier: [FAMILY], oracle_c02_badsig),
     "C09": (lambda tier: [FAMILY], oracle_c09_badsig),
     # the family is listed for both tiers (oracles.replay always evaluates with tier "quick"); only thorough compiles anything
     "C01": (lambda tier: [FAMILY], oracle_c01_badsig),
